@@ -249,6 +249,13 @@ def judgeC07 (o : Obs) : Verdict :=
           let f := arg e 3
           if flagTrueAt o f p.2 == (want == 1) then some t0
           else ((idx o).find? (fun q => q.2 > p.2 && q.1.tag == "setflag" && arg q.1 0 == f && arg q.1 1 == want)).map (·.1.time)
+        else if k == 7 || k == 8 then
+          -- `a | b` / `a & b` over two flags: the first moment (event index) at which it holds
+          let f := arg e 3
+          let g := arg e 4
+          let holds (i : Nat) : Bool := if k == 7 then flagTrueAt o f i || flagTrueAt o g i else flagTrueAt o f i && flagTrueAt o g i
+          if holds p.2 then some t0
+          else ((idx o).find? (fun q => q.2 > p.2 && q.1.tag == "setflag" && holds (q.2 + 1))).map (·.1.time)
         else none
       match (idx o).find? (fun q => q.1.tag == "sexit" && arg q.1 1 == inst), trigger with
       | some (x, _), some t => fail (x.time > t) s!"until-scope {arg e 0}#{inst} entered at {t0}: notification fired at {t} but the block ended at {x.time}"
